@@ -20,7 +20,7 @@ CHECKS = {
    note="Trusted: xarray alignment used to compare by label. Known finding KF16 (Dataset variables with different dim sets)."),
  "C06": dict(spec="XMask", level="model_checking",
    tech=T + "all NaN masks of a small grid classified by the rectangle criterion (proved equivalent to the code's count criterion); each mask applied to real data: refusal, NaN addresses and equality with the pre-deleted model",
-   text="Exhaustive over all 2^12 (quick) / 2^16 (thorough) masks for DataArray and two-variable Dataset, plus all pairs of missing-sample sets of two fields for cross-set models.",
+   text="Exhaustive over all 2^12 (quick) / 2^16 (thorough) masks for DataArray, two-variable Dataset and a two-element list, all masks of a grid whose sample axis is a stacked index (two sample dimensions / user MultiIndex), plus all pairs of missing-sample sets of two fields for cross-set models (same and lagged sample labels).",
    note="Masks leaving <2 samples or no feature are don't-care. Known finding KF18."),
  "C08": dict(spec="XWorldSingle", level="model_checking",
    tech=T + "option algebra of the exact spectral world (weights, cos-latitude, standardisation per feature) and relation scenarios (shift, rescale, global factor, pre-multiplication, coslat-as-weights): both sides fitted and compared with each other and the prediction",
@@ -28,23 +28,23 @@ CHECKS = {
    note="Constant features under standardisation at 1e8 scale are excluded (std below the stated 1.2e-7 floor)."),
  "C09": dict(spec="XWorldCross", level="model_checking",
    tech=T + "exact two-field world (Hadamard left vectors, Pythagorean overlaps, alpha in {0,1/2,1}): exact singular values, pairings, canonical correlations, total squared covariance; replay into CPCCA/MCA/CCA/RDA and Complex variants; other alpha measured against numpy",
-   text="Exhaustive over spectra x overlaps x alpha pairs x named methods x PCA x dtype x wide x sample-label variants within the tier's constants.",
+   text="Exhaustive over spectra x overlaps x alpha pairs x named methods x PCA x dtype x wide x sample-label variants x physical magnitudes of the two fields within the tier's constants.",
    note="Whitener covariance normalisation kappa in {n,n-1} accepted consistently."),
  "C14": dict(spec="XLifecycle", level="model_checking",
    tech=T + "lifecycle specification with finite state space explored completely per class family; transition-cover replay of TLC's state graph into real objects with state projection and fresh-model oracle after every call; named deviations must give counterexamples",
-   text="Every reachable state of the lifecycle spec (call histories of any length); thorough replays every transition, quick a seeded sample of covering paths.",
+   text="Every reachable state of the lifecycle spec (call histories of any length); thorough replays every transition, quick a seeded sample of covering paths; in both tiers use-reset-answer history probes for every (use, reset) pair of call kinds; the preprocessing chain stage by stage (XPrepStages).",
    note="Trusted: projection/oracle code; d1..d3 stand for other data of equal/different structure."),
  "C15": dict(spec="XWorldSingle", level="model_checking",
    tech=T + "exact prediction of the number of modes kept for fractional n_modes (and the warning), allowed SVD routines per solver (observed via hook H1), sign rule; measured bit-identity for equal seeds and acceptance of pass-through options",
-   text="Exhaustive over spectrum x fraction x init_rank_reduction x solver x dtype on both decomposition routes.",
+   text="Exhaustive over spectrum x fraction (incl. a hair's breadth above each cumulative fraction) x init_rank_reduction x solver x dtype x shape (incl. very tall) on both decomposition routes; seed determinism for every class taking random_state.",
    note="Fractions on cumulative boundaries excluded (floating point)."),
  "C16": dict(spec="XWorldCross", level="model_checking",
    tech=T + "X field of the two-field world as exact world for Whitener/PCA (eigenvalues (s^2/kappa)^alpha); generic matrices up to cond 1e6, other alpha, complex and dask measured against numpy eigh",
-   text="Exhaustive over (spectrum, alpha, dtype) of the world plus a conditioning grid.",
+   text="Exhaustive over (spectrum, alpha, dtype, physical magnitude 1 / 1e-8 / 1e6) of the world plus a conditioning grid at three magnitudes.",
    note="Tolerance for generic matrices scales with cond^2 * 1e-15."),
  "C17": dict(spec="XPreproc+XParams", level="fault_enumeration",
    tech=T + "two enumerated fault spaces (layout x transform-argument fault, class family x parameter fault) with the verdict table transcribed from the statement; each executed on a fitted real model, raised vs returned observed",
-   text="Every single-fault mutation in the tables for every layout/family within the tier's constants.",
+   text="Every single-fault mutation in the tables for every layout/family (and option context) within the tier's constants; mutations that present the SAME data (reordered variables, transposed argument, permuted labels, extra variable) must be answered with the projection of that data or refused.",
    note="Unclassified mutations have verdict 'either' and can never alarm."),
 }
 DESIGN = {"C01": "6 (C01), 5.1", "C02": "6 (C02), 3.2", "C06": "6 (C06)", "C08": "6 (C08), 5.1", "C09": "6 (C09), 5.2", "C14": "6 (C14), 3.5",
